@@ -118,6 +118,12 @@ def _classes():
         def gen(self):
             yield 1
             raise Weird("in generator")
+
+        @api.oneway
+        def slow(self, seconds):
+            # a long-running job a client may start as often as it likes with fire-and-forget calls
+            import time
+            time.sleep(min(float(seconds), 2.0))
     return W
 
 
@@ -141,6 +147,9 @@ hostile = st.fixed_dictionaries({
     "end": st.sampled_from(["fin", "rst", "fin"]),
 })
 witness = st.fixed_dictionaries({"kind": st.just("witness"), "who": st.integers(0, 1)})
+
+
+flood = st.fixed_dictionaries({"kind": st.just("flood"), "ser": st.sampled_from(["marshal", "json", "serpent", "msgpack"]), "end": st.sampled_from(["fin", "rst"])})
 
 
 def case_strategy():
@@ -281,6 +290,40 @@ def _run_case(case, servertype=None, commtimeout=None, keep=False, poolsize=None
             if step["kind"] == "witness":
                 witness_call(step["who"], "step %d" % n)
                 continue
+            if step["kind"] == "flood":
+                if poolsize or commtimeout:
+                    continue
+                # one client starts as many long-running jobs with ONEWAY calls as the server has workers, and leaves: the daemon
+                # goes on serving everybody else at once (fire-and-forget work is not done by the workers that serve connections)
+                from Pyro5 import config as _config
+                fp = live.RawPeer(S.address(), timeout=CEILING)
+                try:
+                    m = fp.handshake("w", step["ser"])
+                    if not isinstance(m, dict) or m["type"] != wire.CONNECTOK:
+                        viol("handshake-refused", "valid handshake refused during the script (step %d): %r" % (n, m))
+                    else:
+                        njobs = min(int(_config.THREADPOOL_SIZE), 120) if servertype == "thread" else 40
+                        fp.send(b"".join(wire.ref_encode(wire.INVOKE, wire.F_ONEWAY, 10 + k, live.SER_IDS[step["ser"]], live.call_payload(step["ser"], "w", "slow", (0.7,), {}))
+                                         for k in range(njobs)))
+                        # (a ping on the same connection: when it is answered the daemon has taken up every request before it)
+                        fp.send(wire.ref_encode(wire.PING, 0, 9, 42, b"ping"))
+                        fp.read_message()
+                        if step["end"] == "rst":
+                            fp.abort()
+                finally:
+                    fp.close()
+                try:
+                    with live.proxy(S.uri("w"), timeout=CEILING) as p:
+                        L["token"] += 1
+                        t = L["token"]
+                        if list(p.f(t)) != ["w", t, t * 2 + 1]:
+                            viol("fresh-client-wrong-answer", "fresh client got a wrong answer")
+                except Exception as x:
+                    viol("fresh-client-refused:after-oneway-flood", "step %d: a client started %d long-running oneway jobs and left; a new client cannot connect/call: %r" % (n, njobs, x))
+                for i in (0, 1):
+                    witness_call(i, "step %d, after a flood of oneway jobs" % n)
+                live.join_oneway_threads(30)
+                continue
             peer = live.RawPeer(S.address(), timeout=CEILING)
             try:
                 if step["handshake"]:
@@ -323,14 +366,24 @@ def _run_case(case, servertype=None, commtimeout=None, keep=False, poolsize=None
             L["witnesses"][1]._pyroRelease()        # make room: the pool was full on purpose
             L["witnesses"][1] = None
             live.wait_for(lambda: S.busy_workers() <= poolsize - 1, CEILING)
-        try:
-            with live.proxy(S.uri("w"), timeout=CEILING) as p:
-                L["token"] += 1
-                t = L["token"]
-                if list(p.f(t)) != ["w", t, t * 2 + 1]:
-                    viol("fresh-client-wrong-answer", "fresh client got a wrong answer")
-        except Exception as x:
-            viol("fresh-client-refused", "a new client cannot connect/call after the script: %r" % (x,))
+        import time as _time
+        t_end = _time.time() + CEILING
+        while True:
+            try:
+                with live.proxy(S.uri("w"), timeout=CEILING) as p:
+                    L["token"] += 1
+                    t = L["token"]
+                    if list(p.f(t)) != ["w", t, t * 2 + 1]:
+                        viol("fresh-client-wrong-answer", "fresh client got a wrong answer")
+                break
+            except Exception as x:
+                if poolsize and "no free workers" in str(x) and _time.time() < t_end:
+                    # (the pool was full on purpose: when exactly the daemon has let go of the worker of the witness that just left is
+                    #  its own business - only a refusal that persists is a stranded worker)
+                    _time.sleep(0.05)
+                    continue
+                viol("fresh-client-refused", "a new client cannot connect/call after the script: %r" % (x,))
+                break
         if poolsize:
             # let the server notice that the fresh client is gone before the next case reconnects its second witness
             live.wait_for(lambda: S.busy_workers() <= sum(1 for w in L["witnesses"] if w is not None and w._pyroConnection is not None), CEILING)
@@ -540,7 +593,7 @@ def _passes_prefix(m):
 
 def _nontrivial(case):
     for s in case["steps"]:
-        if s["kind"] == "hostile" and (s["handshake"] or any(_passes_prefix(m) for m in s["msgs"])):
+        if s["kind"] == "flood" or (s["kind"] == "hostile" and (s["handshake"] or any(_passes_prefix(m) for m in s["msgs"]))):
             return True
     return False
 
@@ -550,6 +603,9 @@ def _labels(case):
     for s in case["steps"]:
         if s["kind"] == "witness":
             l.append("witness-step")
+            continue
+        if s["kind"] == "flood":
+            l.append("flood-of-long-running-oneway-jobs")
             continue
         l.append("hostile:" + ("after-handshake" if s["handshake"] else "before-handshake"))
         l.append("end:" + s["end"])
@@ -623,6 +679,10 @@ def run(ctx):
                 if ctx.violations:
                     break
             ctx.notes["sweep_cases"] = k
+            if not ps and not to:
+                for ser in ("marshal", "serpent", "json", "msgpack"):
+                    case = {"steps": [{"kind": "flood", "ser": ser, "end": "rst" if ser in ("serpent", "json") else "fin"}, {"kind": "witness", "who": 0}]}
+                    ctx.observe(case, run_case(case, st_, to, keep=True, poolsize=ps), True, _labels(case) + ["sweep"])
         n = ctx.n(400, 2500) if not to else ctx.n(150, 800)
         ctx.search(case_strategy(), lambda c: run_case(c, st_, to, keep=True, poolsize=ps), n, nontrivial=_nontrivial,
                    labels=(lambda c: _labels(c) + (["pool-full"] if ps else [])),
